@@ -14,6 +14,9 @@ func extraGen(kind string, seed int64, prop string, idx int) (*Case, bool) {
 		prof := map[string]string{"diff:c06": "rejects", "diff:c15": "enc", "diff:c16": "order", "diff:c17": "dry"}[kind]
 		h := genHistory(r, profileByName(prof))
 		return &Case{Kind: kind, H: h, X: map[string]interface{}{"tseed": r.Int63n(1 << 40)}}, true
+	case "garbage":
+		r := caseRand(seed, kind, idx)
+		return &Case{Kind: kind, H: genGarbageHistory(r)}, true
 	case "smallsamp":
 		r := caseRand(seed, kind, idx)
 		j := r.Intn(smallTotal())
@@ -26,6 +29,8 @@ func extraCheck(prop string, c *Case, trace bool) (*CaseResult, bool) {
 	switch {
 	case c.G != nil:
 		return checkGraphCase(c.G), true
+	case c.Kind == "garbage":
+		return checkGarbage(c, trace), true
 	case c.Kind == "diff:c06":
 		return checkC06(c, trace), true
 	case c.Kind == "diff:c15":
@@ -49,6 +54,8 @@ func extraJobs(prop, tier string) []JobSpec {
 	switch prop {
 	case "C06":
 		return []JobSpec{{"diff:c06", n(40000, 2000000)}, {"hist:rejects", n(15000, 700000)}}
+	case "C14":
+		return []JobSpec{{"garbage", n(60000, 3000000)}, {"hist:rejects", n(20000, 1000000)}}
 	case "C15":
 		return []JobSpec{{"diff:c15", n(40000, 2000000)}}
 	case "C16":
